@@ -162,6 +162,9 @@ def api_call(ex, st, args, ins, fn):
         return None
     if short == 'verifSymbolic':
         return True
+    if short == 'verifFaultWrites':
+        st.ghost['write_fault'] = bool(args[0])
+        return None
     if short == 'verifThorough':
         return ex.opts.get('tier') == 'thorough'
     if short == 'verifCase':
@@ -887,13 +890,85 @@ def m_file_create(ex, st, args, ins, fn):
     return (Ptr(c, ()), None)
 
 
+def _fs(st):
+    return dict(st.ghost.get('fs', ()))
+
+
+def _fs_set(st, fs):
+    st.ghost['fs'] = tuple(sorted(fs.items()))
+
+
+def _path(x):
+    if not isinstance(x, (bytes, str)):
+        raise Unsupported('file model: symbolic or opaque path')
+    return x if isinstance(x, bytes) else x.encode()
+
+
 @model('(*os.File).Write')
 def m_file_write(ex, st, args, ins, fn):
     fv = _file(ex, st, args[0])
+    if st.ghost.get('write_fault'):
+        # verifFaultWrites(true): the device takes no more data (natively: RLIMIT_FSIZE = 0 -> EFBIG)
+        return (0, Opaque('os:EFBIG'))
     data = tuple(ex.slice_elems(st, args[1]))
     content = fv.content + data          # opened O_APPEND: writes go to the end
     ex.store(st, args[0], FileVal(content, len(content), fv.name))
+    fs = _fs(st)
+    if fv.name in fs:
+        fs[fv.name] = content
+        _fs_set(st, fs)
     return (len(data), None)
+
+
+@model('os.OpenFile')
+def m_os_openfile(ex, st, args, ins, fn):
+    name, flag = _path(args[0]), args[1]
+    if not isinstance(flag, int):
+        raise Unsupported('file model: symbolic open flags')
+    fs = _fs(st)
+    O_CREATE, O_TRUNC = 0o100, 0o1000
+    if name not in fs:
+        if not flag & O_CREATE:
+            return (None, Opaque('os:ENOENT'))
+        fs[name] = ()
+    if flag & O_TRUNC:
+        fs[name] = ()
+    _fs_set(st, fs)
+    c = ex.new_cell(st, FileVal(fs[name], len(fs[name]), name))
+    return (Ptr(c, ()), None)
+
+
+@model('os.WriteFile', 'io/ioutil.WriteFile')
+def m_os_writefile(ex, st, args, ins, fn):
+    name = _path(args[0])
+    if st.ghost.get('write_fault'):
+        return Opaque('os:EFBIG')
+    fs = _fs(st)
+    fs[name] = tuple(ex.slice_elems(st, args[1]))
+    _fs_set(st, fs)
+    return None
+
+
+@model('os.ReadFile', 'io/ioutil.ReadFile')
+def m_os_readfile(ex, st, args, ins, fn):
+    name = _path(args[0])
+    fs = _fs(st)
+    if name not in fs:
+        return (None, Opaque('os:ENOENT'))
+    content = fs[name]
+    c = ex.new_cell(st, tuple(content))
+    return (Slice(Ptr(c, ()), 0, len(content), len(content)), None)
+
+
+@model('os.Rename')
+def m_os_rename(ex, st, args, ins, fn):
+    old, new = _path(args[0]), _path(args[1])
+    fs = _fs(st)
+    if old not in fs:
+        return Opaque('os:ENOENT')
+    fs[new] = fs.pop(old)
+    _fs_set(st, fs)
+    return None
 
 
 @model('(*os.File).Truncate')
@@ -955,6 +1030,10 @@ def m_file_read(ex, st, args, ins, fn):
 
 @model('os.Remove', 'os.RemoveAll')
 def m_os_remove(ex, st, args, ins, fn):
+    if isinstance(args[0], (bytes, str)):
+        fs = _fs(st)
+        if fs.pop(_path(args[0]), None) is not None:
+            _fs_set(st, fs)
     return None
 
 
@@ -1034,3 +1113,38 @@ def m_pool_put(ex, st, args, ins, fn):
     k = ('syncpool', args[0].cell, args[0].path)
     st.ghost[k] = st.ghost.get(k, ()) + (args[1],)
     return None
+
+
+@model('internal/abi.NoEscape')
+def m_abi_noescape(ex, st, args, ins, fn):
+    return args[0]
+
+
+def _gopath_clean(p):
+    import posixpath
+    if p == b'':
+        return b'.'
+    r = posixpath.normpath(p)
+    if r.startswith(b'//'):
+        r = r[1:]
+    return r
+
+
+@model('path/filepath.Join', 'path.Join')
+def m_filepath_join(ex, st, args, ins, fn):
+    elems = ex.slice_elems(st, args[0])
+    if not all(isinstance(e, bytes) for e in elems):
+        return NotImplemented
+    parts = [e for e in elems if e != b'']
+    if not parts:
+        return b''
+    return _gopath_clean(b'/'.join(parts))
+
+
+@model('path/filepath.Dir', 'path.Dir')
+def m_filepath_dir(ex, st, args, ins, fn):
+    p = args[0]
+    if not isinstance(p, bytes):
+        return NotImplemented
+    i = p.rfind(b'/')
+    return _gopath_clean(p[:i + 1])
